@@ -37,6 +37,7 @@ TStep ==
      \/ IsEv("src") /\ Src(R.kind, R.n, R.offered)
      \/ IsEv("adv") /\ Adv(R.n, R.pos)
      \/ IsEv("lrnew") /\ LrNew(R.pos)
+     \/ IsEv("pitem") /\ UNCHANGED cvars      \* the entries of a parse() result (judged by the reference readings)
      \/ IsEv("ln") /\ Ln(R.line, R.start)
      \/ IsEv("gu") /\ Gu(R.pos, R.io, R.line, R.start, R.col)
      \/ IsEv("fp") /\ R.buf_len >= R.off + 8 /\ UNCHANGED cvars     \* fast paths only with 8 bytes buffered (C14)
